@@ -9,6 +9,8 @@ import Adlt.Merge.Drv
 import Adlt.Filter.Drv
 import Adlt.Args.Drv
 import Adlt.Plugins.Drv
+import Adlt.Remote.Drv
+import Adlt.Remote.IncrDrv
 /-! `driver <area>`: reads `case \t implobs` lines on stdin, prints one result line each. -/
 def main (args : List String) : IO UInt32 := do
   let stdin ← IO.getStdin
@@ -26,4 +28,6 @@ def main (args : List String) : IO UInt32 := do
   | ["flt"] => Util.loop stdin Flt.doLine; return 0
   | ["arg"] => Util.loop stdin Arg.doLine; return 0
   | ["plg"] => Util.loop stdin Plg.doLine; return 0
+  | ["rem"] => Util.loop stdin Rem.doLine; return 0
+  | ["rsn"] => Util.loop stdin Inc.doLine; return 0
   | _ => IO.eprintln "usage: driver <area>"; return 2
